@@ -98,10 +98,19 @@ def scenic_lines(c):
     i, k = c["id"], c["kind"]
     L = []
     if k == "dir":
-        by = f" by {c['D'] / lat3.SCALE}" if c["by"] == "scalar" else ""
-        new = f"{dims_txt(c['ndim'])}, with contactTolerance {c['ct'] / lat3.SCALE}{own_txt(c['own'])}, {COMMON}"
+        if c["by"] == "scalar":
+            d = c["D"] / lat3.SCALE
+            by = f" by {int(d) if c['dtxt'] == 'int' and d == int(d) else d}"
+        elif c["by"] == "vector":
+            by = f" by {fv(c['V'])}"
+        else:
+            by = ""
+        # the new object's contactTolerance: lattice part + off-lattice remainder; ctmicro = 10 alone is the class default (not written)
+        ct = "" if (c["ct"] == 0 and c["ctmicro"] == 10) else f", with contactTolerance {c['ct'] / lat3.SCALE + c['ctmicro'] * 1e-5}"
+        new = f"{dims_txt(c['ndim'])}{ct}{own_txt(c['own'])}, {COMMON}"
         if c["tk"] == "obj":
-            L.append(obj_line(f"r{i}", c["ref"], c["rdim"]))
+            rct = f", with contactTolerance {c['rct']}" if c.get("rct") else ""
+            L.append(obj_line(f"r{i}", c["ref"], c["rdim"]) + rct)
             L.append(f"c{i} = new Object {DIR_SYNTAX[c['sub']]} r{i}{by}, {new}{tag(i)}")
         elif c["tk"] == "op":
             L.append(op_line(f"r{i}", c["ref"]))
@@ -275,8 +284,19 @@ def _generate_pass(tier, rng, cases):
                 for o in some_orients(nq):
                     own = rng.choice(owns) if rng.random() < 0.4 else (0, 0, 0)
                     add(kind="dir", sub=sub, tk=tk, by=by, D=rng.choice([2, 4, 6, 10]), ref=dict(o, p=qv(P())),
-                        rdim=rng.choice([[8, 16, 24], [24, 8, 16]]), ndim=rng.choice([[4, 8, 12], [12, 4, 8]]), ct=2,
-                        own=list(own), par=rng.choice(some_orients(4)))
+                        rdim=rng.choice([[8, 16, 24], [24, 8, 16]]), ndim=rng.choice([[4, 8, 12], [12, 4, 8]]), ct=2, ctmicro=0,
+                        V=[0, 0, 0], dtxt="float", rct=0, own=list(own), par=rng.choice(some_orients(4)))
+    # ---- directional specifiers relative to an OBJECT: every form of `by` (omitted, 0, 0.0, positive, vector) and of the
+    # new object's contactTolerance (explicit on the lattice, the class default 1e-4); the reference object gets a
+    # different contactTolerance, which must not matter
+    forms = [("none", 0, "float", 2, 0), ("none", 0, "float", 0, 10), ("none", 0, "float", 4, 0), ("scalar", 0, "int", 2, 0), ("scalar", 0, "float", 2, 0),
+             ("scalar", 0, "int", 0, 10), ("scalar", 6, "float", 2, 0), ("scalar", 3, "float", 0, 10), ("vector", 0, "float", 2, 0), ("vector", 0, "float", 0, 10)]
+    for sub in DIRS:
+        for (by, D, dtxt, ct, ctmicro) in forms:
+            for o in some_orients(2 if tier == "quick" else 8, pyth=1 if tier == "thorough" else 0)[1:] + ([orient(rng.choice(cube), rng.choice(PYTH_YAWS))] if rng.random() < 0.3 else []):
+                add(kind="dir", sub=sub, tk="obj", by=by, D=D, dtxt=dtxt, V=rng.choice([[4, 8, 12], [0, 0, 0], [6, 0, 2], [2, 10, 0]]), ref=dict(o, p=qv(P())),
+                    rdim=rng.choice([[8, 16, 24], [24, 8, 16], [4, 4, 8]]), ndim=rng.choice([[4, 8, 12], [12, 4, 8], [8, 8, 4]]), ct=ct, ctmicro=ctmicro,
+                    rct=rng.choice([0, 0.75, 0.002]), own=list(rng.choice(owns) if rng.random() < 0.25 else (0, 0, 0)), par=orient())
     # ---- beyond
     for fromk in ("vec", "op", "obj", "ego"):
         for (x, y, z, nxy, n) in DDIRS:
@@ -499,8 +519,11 @@ def compare(c, e, o):
         else:
             e["rd"] = 0
     if e["ps"] > 0:
-        if "p" not in o or not lat3.vec_close(o["p"], e["p"], e["ps"], TOL):
-            bad.append(("position", [x / e["ps"] for x in e["p"]], o.get("p")))
+        want = [x / e["ps"] for x in e["p"]]
+        if e.get("pe"):  # off-lattice remainder (half of the default contactTolerance), in units of 1e-5
+            want = [w + x * 1e-5 / e["pes"] for w, x in zip(want, e["pe"])]
+        if "p" not in o or any(abs(float(a) - b) > TOL for a, b in zip(o["p"], want)):
+            bad.append(("position", want, o.get("p")))
     rot_dev = False
     if e["rd"] > 0 and not e["free"]:
         if "r" not in o or not lat3.mat_close(o["r"], e["r"], e["rd"], TOL):
@@ -542,7 +565,7 @@ def main(tier):
     ck.add_tlc("GeomSpec", res)
     if res.coverage.get("Pick", (0, 0))[1] == 0:
         raise MachineryError("GeomSpec.tla: Pick never taken")
-    exp = {o["id"]: dict(o["e"], up=o.get("up") or [], ups=o.get("ups", 0)) for o in res.outputs}
+    exp = {o["id"]: dict(o["e"], up=o.get("up") or [], ups=o.get("ups", 0), pe=o.get("pe") or [], pes=o.get("pes", 0)) for o in res.outputs}
     discriminating = {o["id"] for o in res.outputs if o.get("disc")}
     noncommuting = {o["id"] for o in res.outputs if o.get("nc")}
     if len(exp) != len(cases):
